@@ -428,3 +428,11 @@ func init() {
 		mutant{Name: "return-checked-against-a-remembered-function", Prop: "C12", File: "interp/cfg.go", Old: "\t\t\t\ttyp, err = nodeType(interp, sc.upperLevel(), returnSig.child[2].fieldType(i))\n\t\t\t\tif err != nil {\n\t\t\t\t\treturn\n\t\t\t\t}\n", New: "\t\t\t\ttyp = lastResults[i%len(lastResults)]\n", Also: [][3]string{{"interp/cfg.go", "\tvar initNodes []*node\n\tvar err error\n", "\tvar initNodes []*node\n\tvar err error\n\tlastResults := []*itype{nil}\n"}}, Rule: "R12.24", Key: "cfg/case:returnStmt/operand-check#1/result-types-of-the-current-function"},
 	)
 }
+
+func init() {
+	addMutants(
+		// round-7 seeds on C01 and C02
+		mutant{Name: "if-without-else-may-have-no-successor", Prop: "C01", File: "interp/cfg.go", Old: "\t\t\tn.start = init.start\n\t\t\tif cond.rval.IsValid() {\n\t\t\t\t// Condition is known at compile time, bypass test.\n\t\t\t\tif cond.rval.Bool() {\n\t\t\t\t\tinit.tnext = tbody.start\n\t\t\t\t} else {\n\t\t\t\t\tinit.tnext = n\n\t\t\t\t}\n\t\t\t} else {\n\t\t\t\tinit.tnext = cond.start\n\t\t\t\tcond.tnext = tbody.start\n\t\t\t}\n\t\t\ttbody.tnext = n\n\t\t\tsetFNext(cond, n)\n", New: "\t\t\tn.start = init.start\n\t\t\tvar next *node\n\t\t\tswitch {\n\t\t\tcase !cond.rval.IsValid():\n\t\t\t\tnext = cond.start\n\t\t\t\tcond.tnext = tbody.start\n\t\t\tcase cond.rval.Bool():\n\t\t\t\tnext = tbody.start\n\t\t\t}\n\t\t\tinit.tnext = next\n\t\t\ttbody.tnext = n\n\t\t\tsetFNext(cond, n)\n", Rule: "R01.36", Key: "Interpreter.cfg/next-stored-into-tnext/never-nil"},
+		mutant{Name: "left-operand-computed-in-the-assigned-variable", Prop: "C02", File: "interp/cfg.go", Old: "\t\t\tdefault:\n\t\t\t\t// Allocate a new location in frame, and store the result here.\n\t\t\t\tn.findex = sc.add(n.typ)\n\t\t\t}\n\t\t\tif n.typ != nil && !n.typ.untyped {\n\t\t\t\tfixUntyped(n, sc)\n\t\t\t}\n", New: "\t\t\tcase n.anc.kind == binaryExpr && n.anc.child[0] == n && n.anc.anc.kind == assignStmt && n.anc.anc.nleft == 1 && n.anc.anc.child[0].typ != nil && n.typ != nil && n.anc.anc.child[0].typ.id() == n.typ.id():\n\t\t\t\tn.findex = n.anc.anc.child[0].findex\n\t\t\tdefault:\n\t\t\t\t// Allocate a new location in frame, and store the result here.\n\t\t\t\tn.findex = sc.add(n.typ)\n\t\t\t}\n\t\t\tif n.typ != nil && !n.typ.untyped {\n\t\t\t\tfixUntyped(n, sc)\n\t\t\t}\n", Rule: "R02.20", Key: "cfg/case:binaryExpr/result-location#4/own-or-direct-parent"},
+	)
+}
